@@ -179,7 +179,7 @@ func (h *handler) OnOpen(c gnet.Conn) (out []byte, action gnet.Action) {
 			w.probes["open-reply-on-closed-conn"]++
 			w.logf("conn %d open-reply op=%d n=%d dropped: closed inside OnOpen", cs.idx, id, n)
 		} else {
-			cs.W = append(cs.W, wEntry{id, n})
+			cs.W = append(cs.W, wEntry{id: id, n: n})
 			cs.wBytes += n
 			w.logf("conn %d open-reply op=%d n=%d", cs.idx, id, n)
 		}
@@ -454,6 +454,38 @@ func (s *scriptWriter) Write(p []byte) (int, error) {
 	return n, nil
 }
 
+// echoWriter writes what WriteTo hands it back to the same connection.
+type echoWriter struct {
+	w   *World
+	cs  *connState
+	got []byte
+}
+
+func (e *echoWriter) Write(p []byte) (int, error) {
+	w, cs := e.w, e.cs
+	keep := append([]byte(nil), p...)
+	w.inCall[cs.task]++
+	n, err := cs.c.Write(p)
+	w.inCall[cs.task]--
+	id := w.newOpID()
+	w.logf("conn %d echo Write op=%d n=%d -> %d %v", cs.idx, id, len(keep), n, err != nil)
+	if err != nil {
+		if cs.failed == nil {
+			cs.failed = &wEntry{id: id, n: len(keep), raw: keep}
+		}
+		cs.peerCause = true
+		w.probes["sync-write-failed"]++
+		return 0, err
+	}
+	if n != len(keep) {
+		w.violate("C02", "count", "conn %d: Write of %d bytes (echo) returned %d without error", cs.idx, len(keep), n)
+	}
+	cs.W = append(cs.W, wEntry{id: id, n: len(keep), raw: keep})
+	cs.wBytes += len(keep)
+	e.got = append(e.got, keep...)
+	return len(keep), nil
+}
+
 // doRead performs one read-method call and checks it. Returns false after a violation.
 func (w *World) doRead(cs *connState, op *ROp) bool {
 	c := cs.c
@@ -576,6 +608,26 @@ func (w *World) doRead(cs *connState, op *ROp) bool {
 		}
 		cs.consumed += d
 	case "writeto":
+		if op.Acc == -2 {
+			// the echo idiom: the connection is its own writer (a failing write
+			// closes the connection in the middle of WriteTo)
+			ew := &echoWriter{w: w, cs: cs}
+			n, err := c.WriteTo(ew)
+			w.logf("conn %d WriteTo(itself) n=%d %v", cs.idx, n, err != nil)
+			w.probes["writeto-itself"]++
+			if int(n) != len(ew.got) {
+				w.violate("C01", "count", "conn %d: WriteTo(the connection itself) reported %d bytes, the connection's Write accepted %d (err=%v)", cs.idx, n, len(ew.got), err)
+				return false
+			}
+			if !w.checkBytes(cs, ew.got, cs.consumed, "WriteTo") {
+				return false
+			}
+			cs.consumed += len(ew.got)
+			if cs.closed {
+				return false
+			}
+			break
+		}
 		sw := &scriptWriter{acc: op.Acc}
 		if op.Acc <= 0 {
 			sw.acc = -1
@@ -691,9 +743,9 @@ func (w *World) doWrite(cs *connState, op *WOp, where string) {
 			return
 		}
 		if cs.inOnClose {
-			cs.tail = append(cs.tail, wEntry{id, op.N})
+			cs.tail = append(cs.tail, wEntry{id: id, n: op.N})
 		} else {
-			cs.W = append(cs.W, wEntry{id, op.N})
+			cs.W = append(cs.W, wEntry{id: id, n: op.N})
 			cs.wBytes += op.N
 		}
 		w.inCall[cs.task]++
@@ -702,7 +754,7 @@ func (w *World) doWrite(cs *connState, op *WOp, where string) {
 		w.logf("conn %d Flush -> %v", cs.idx, ferr != nil)
 		if ferr != nil {
 			// a failing flush closes the connection; what was accepted may be cut short
-			cs.failed = &wEntry{0, 0}
+			cs.failed = &wEntry{}
 			cs.peerCause = true
 		}
 	case "flush":
@@ -819,9 +871,9 @@ func (w *World) acceptSync(cs *connState, id, want, n int, err error, what strin
 		// anything; a parting write inside OnClose that fails wrote nothing the
 		// stream oracle needs to know about (the connection is already down).
 		if cs.inOnClose {
-			cs.tail = append(cs.tail, wEntry{id, want}) // any prefix of it may be on the wire
+			cs.tail = append(cs.tail, wEntry{id: id, n: want}) // any prefix of it may be on the wire
 		} else if cs.failed == nil {
-			cs.failed = &wEntry{id, want}
+			cs.failed = &wEntry{id: id, n: want}
 		}
 		cs.peerCause = true
 		w.probes["sync-write-failed"]++
@@ -832,10 +884,10 @@ func (w *World) acceptSync(cs *connState, id, want, n int, err error, what strin
 		return
 	}
 	if cs.inOnClose {
-		cs.tail = append(cs.tail, wEntry{id, want})
+		cs.tail = append(cs.tail, wEntry{id: id, n: want})
 		return
 	}
-	cs.W = append(cs.W, wEntry{id, want})
+	cs.W = append(cs.W, wEntry{id: id, n: want})
 	cs.wBytes += want
 }
 
